@@ -439,6 +439,32 @@ def h_moduli():
     return fn
 
 
+def h_moduli_samples():
+    """bulk / shear averages on concrete low-symmetry tensors against contractions of the stiffness and its numerical inverse
+    (concrete samples: the symbolic case above goes through the stubbed 6x6 inverse and can end inconclusive)"""
+    def fn():
+        from atomman import ElasticConstants
+        mats = {'orthorhombic': ElasticConstants(C11=215.0, C22=199.0, C33=267.0, C12=46.0, C13=55.0, C23=108.0, C44=124.0, C55=66.0, C66=73.0),
+                'monoclinic': ElasticConstants(C11=120.0, C12=50.0, C13=42.0, C15=9.0, C22=150.0, C23=38.0, C25=-6.0, C33=170.0, C35=11.0, C44=40.0, C46=4.0, C55=35.0, C66=45.0),
+                'hexagonal': ElasticConstants(C11=162.0, C12=92.0, C13=69.0, C33=181.0, C44=47.0)}
+        ob = []
+        for name, ec in mats.items():
+            C = np.asarray(ec.Cij, float); S = np.linalg.inv(C)
+            KV = (C[0, 0] + C[1, 1] + C[2, 2] + 2 * (C[0, 1] + C[1, 2] + C[0, 2])) / 9
+            GV = (C[0, 0] + C[1, 1] + C[2, 2] - (C[0, 1] + C[1, 2] + C[0, 2]) + 3 * (C[3, 3] + C[4, 4] + C[5, 5])) / 15
+            KR = 1 / (S[0, 0] + S[1, 1] + S[2, 2] + 2 * (S[0, 1] + S[1, 2] + S[0, 2]))
+            GR = 15 / (4 * (S[0, 0] + S[1, 1] + S[2, 2]) - 4 * (S[0, 1] + S[1, 2] + S[0, 2]) + 3 * (S[3, 3] + S[4, 4] + S[5, 5]))
+            got = [ec.bulk('Voigt'), ec.shear('Voigt'), ec.bulk('Reuss'), ec.shear('Reuss'), ec.bulk('Hill'), ec.shear('Hill')]
+            want = [KV, GV, KR, GR, (KV + KR) / 2, (GV + GR) / 2]
+            ob.append((f'{name}: Voigt/Reuss/Hill bulk and shear equal the defining sums over Cij and Sij = inv(Cij) ({np.round(got, 4).tolist()} vs {np.round(want, 4).tolist()})', bool(np.allclose(got, want, rtol=1e-9))))
+            # unchanged by a rotation to generic axes
+            R = np.array([[2, -2, 1], [1, 2, 2], [-2, -1, 2]]) / 3.0
+            rot = ec.transform(R)
+            ob.append((f'{name}: the averages are unchanged by a rotation to generic axes', bool(np.allclose([rot.bulk('Voigt'), rot.shear('Voigt'), rot.bulk('Reuss'), rot.shear('Reuss')], want[:4], rtol=1e-8))))
+        return ob
+    return fn
+
+
 NSYS = ['cubic', 'hexagonal', 'tetragonal', 'rhombohedral', 'orthorhombic', 'triclinic']
 def h_normalize(system):
     def fn():
@@ -517,6 +543,7 @@ def cases(tier, seed=0):
                            descr=f'isotropic constructor from ({pair[0]}, {pair[1]}){" using M/lambda/mu keywords" if alias else ""}'))
     for n_, (rows, expect) in enumerate(((([1, 1, 1], [1, -1, 0], [1, 1, -2]), 'ok'), (([1, 1, 0], [-1, 1, 0], [0, 0, 1]), 'ok'), (([1, 0, 0], [0, 0, 1], [0, 1, 0]), 'refused'), (([1, 1, 0], [0, 1, 0], [0, 0, 1]), 'refused'))):
         cs.append(Case(f'axes_check_{n_}', h_axes_check(rows, expect), bind=BIND, budget_s=120, timeout_ms=30000, descr=f'axes_check: rows {rows} with symbolic unequal lengths ({expect})'))
+    cs.append(Case('moduli_samples', h_moduli_samples(), concrete_only=True, budget_s=60, descr='CONCRETE SAMPLES: Voigt/Reuss/Hill averages on low-symmetry tensors, rotation invariance'))
     cs.append(Case('moduli', h_moduli(), bind=BIND, budget_s=170, timeout_ms=30000, descr='Voigt/Reuss/Hill bulk and shear vs defining sums'))
     for system in NSYS:
         cs.append(Case(f'normalize_{system}', h_normalize(system), bind=BIND, budget_s=170, timeout_ms=30000, descr=f'normalized_as({system}) idempotent and is_normal'))
